@@ -23,7 +23,7 @@ RULE = ("case = (place a limit applies, size) with size in {L-2..L+2} for every 
         "Parallel output, Map output (non-terminal, terminal), Task ResultSelector output, definition (Create, Update), state machine / execution names (lengths and every forbidden character), "
         "history length. Non-trivial = |size - L| <= 2 (names: length 79..82 or a forbidden character). Distinct by (place, size).")
 
-DATA_PLACES = ["api_start", "api_start_obj", "api_sync", "callback", "task_reply", "pass_nonterminal", "pass_terminal", "task_selector_terminal", "parallel_nonterminal",
+DATA_PLACES = ["api_start", "api_start_obj", "api_sync", "callback", "task_reply", "task_reply_compact_discarded", "task_reply_padded_discarded", "pass_nonterminal", "pass_terminal", "task_selector_terminal", "parallel_nonterminal",
                "parallel_terminal", "map_nonterminal", "map_terminal"]
 DEF_PLACES = ["def_create", "def_update"]
 FORBIDDEN = " <>{}[]?*\"#%\\^|~`$&,;:/"
@@ -160,6 +160,20 @@ def run_data(place, size):
                 w.add_worker("f", lambda i, p, props: [(0, W.Raw(json.dumps(value)))])
                 definition = {"StartAt": "T", "States": {"T": T("f", W, End=True)}}
                 want = value
+            elif place in ("task_reply_compact_discarded", "task_reply_padded_discarded"):
+                # the reply text is not in json.dumps' default spacing, so the text the worker sent and a re-serialised copy differ in length; the Task discards
+                # the result (ResultPath null), so that only the reply itself is subject to the quota
+                if place == "task_reply_compact_discarded":
+                    k = size - len('{"a":"","b":[1,2,3],"c":{"d":null}}')
+                    text = '{"a":"%s","b":[1,2,3],"c":{"d":null}}' % ("a" * k)
+                else:
+                    core = '{ "a" : [ 1 , 2 ] ,\n  "b" : "%s" }' % ("b" * 1000)
+                    text = core + " " * (size - len(core) - 1) + "\n"
+                if len(text) != size or json.loads(text) is None:
+                    raise HarnessError("reply text construction for %s" % place)
+                w.add_worker("f", lambda i, p, props: [(0, W.Raw(text))])
+                definition = {"StartAt": "T", "States": {"T": T("f", W, ResultPath=None, End=True)}}
+                want = {}
             elif place in ("pass_nonterminal", "pass_terminal"):
                 inp = S(size - 7)
                 st_ = {"Type": "Pass", "Parameters": {"w.$": "$"}}
@@ -197,7 +211,7 @@ def run_data(place, size):
                     definition = {"StartAt": "X", "States": {"X": dict(mp, Next="Q"), "Q": {"Type": "Pass", "End": True}}}
             else:
                 raise HarnessError("unknown place %r" % place)
-            if len(json.dumps(want)) != size:
+            if not place.endswith("_discarded") and len(json.dumps(want)) != size:
                 raise HarnessError("payload construction for %s: %d != %d" % (place, len(json.dumps(want)), size))
             if len(json.dumps(inp)) > Lm:
                 raise HarnessError("input itself over the limit")
@@ -227,13 +241,33 @@ def definition_of_length(n, marker="x"):
     return text
 
 
-def run_definition(place, size):
+def definition_dense(n):
+    """A definition of exactly n characters most of which have to be escaped again (or are multi-byte) in the JSON request body: the body is far longer than the definition."""
+    base = {"Comment": "", "StartAt": "P", "States": {"P": {"Type": "Pass", "End": True}}}
+    k = n - len(json.dumps(base))
+    a = (k - 3000) // 4          # quotes and backslashes: two characters each in the definition text, four in the request body
+    comment = ('"' * a) + ("\\" * a) + ("\u00e9" * 1000) + ("\n" * 500)
+    base["Comment"] = comment
+    rest = n - len(json.dumps(base, ensure_ascii=False))
+    if rest < 0:
+        raise ValueError
+    base["Comment"] = comment + "x" * rest
+    text = json.dumps(base, ensure_ascii=False)
+    assert len(text) == n, (len(text), n)
+    return text
+
+
+def run_definition(place, size, dense=False):
     from .. import world as W
     fails = []
     w = W.World(seed=16, tick=0.001)
     try:
         eng = w.add_engine("A")
-        text = definition_of_length(size)
+        text = definition_dense(size) if dense else definition_of_length(size)
+        if dense:
+            if len(json.dumps({"definition": text})) < size + 300000:
+                raise HarnessError("dense definition is not dense")
+        tag = place + ("_dense" if dense else "")
         if place == "def_create":
             st, r = w.create_state_machine("m", text)
             target = "m"
@@ -244,19 +278,19 @@ def run_definition(place, size):
             st, r = eng.api("UpdateStateMachine", {"stateMachineArn": W.sm_arn("m"), "definition": text})
         if size <= L_DEF:
             if st != 200:
-                fails.append(("%s:refused-within-limit:%s" % (place, rel(size, L_DEF)), "size %d -> %s %s" % (size, st, str(r)[:200])))
+                fails.append(("%s:refused-within-limit:%s" % (tag, rel(size, L_DEF)), "size %d -> %s %s" % (size, st, str(r)[:200])))
             else:
                 st2, d = eng.api("DescribeStateMachine", {"stateMachineArn": W.sm_arn("m")})
                 if st2 != 200 or json.loads(d["definition"]) != json.loads(text):
-                    fails.append(("%s:value-changed:%s" % (place, rel(size, L_DEF)), "the definition is not described back unchanged"))
+                    fails.append(("%s:value-changed:%s" % (tag, rel(size, L_DEF)), "the definition is not described back unchanged"))
         else:
             if st != 400 or not isinstance(r, dict) or r.get("__type") != "InvalidDefinition":
-                fails.append(("%s:oversize-not-refused:%s" % (place, rel(size, L_DEF)), "size %d -> %s %s" % (size, st, str(r)[:200])))
+                fails.append(("%s:oversize-not-refused:%s" % (tag, rel(size, L_DEF)), "size %d -> %s %s" % (size, st, str(r)[:200])))
             st2, d = eng.api("DescribeStateMachine", {"stateMachineArn": W.sm_arn("m")})
             if place == "def_create" and st2 == 200:
-                fails.append(("%s:oversize-stored:%s" % (place, rel(size, L_DEF)), "the refused definition was stored"))
+                fails.append(("%s:oversize-stored:%s" % (tag, rel(size, L_DEF)), "the refused definition was stored"))
             if place == "def_update" and (st2 != 200 or "yyy" not in d["definition"]):
-                fails.append(("%s:oversize-stored:%s" % (place, rel(size, L_DEF)), "the refused update changed the stored definition"))
+                fails.append(("%s:oversize-stored:%s" % (tag, rel(size, L_DEF)), "the refused update changed the stored definition"))
     finally:
         w.close()
     return fails
@@ -379,7 +413,7 @@ def run_scenario(sc):
     if k == "data":
         return run_data(sc["place"], sc["size"])
     if k == "definition":
-        return run_definition(sc["place"], sc["size"])
+        return run_definition(sc["place"], sc["size"], dense=bool(sc.get("dense")))
     if k == "empty-definition":
         return run_empty_definition()
     if k == "names":
@@ -399,6 +433,8 @@ def window_scenarios():
     for p in DEF_PLACES:
         for d in (-2, -1, 0, 1, 2):
             out.append({"kind": "definition", "place": p, "size": L_DEF + d})
+        for d in (-1, 0, 1):
+            out.append({"kind": "definition", "place": p, "size": L_DEF + d, "dense": True})
     out.append({"kind": "empty-definition"})
     names = [("len%d" % n, "n" * n) for n in (1, 2, 79, 80, 81, 82, 200)]
     names += [("forbidden-%02x" % ord(c), "a" + c + "b") for c in FORBIDDEN]
@@ -482,8 +518,9 @@ def replay_case(case):
 def main(tier, seed, replay=None):
     camp = Campaign(PID, rule=RULE, tier=tier, seed=seed)
     camp.assumptions = [
-        "a size is the number of characters of the JSON text as the engine itself reports it (json.dumps default spacing, ASCII payloads); payloads are built so that this text is also what is sent, "
-        "so the API's and the engine's count coincide (compact or non-ASCII texts, whose two counts differ, are not generated)",
+        "a size is the number of characters of the JSON text that is sent; for values that come back out of the engine (state outputs) payloads are ASCII in json.dumps default spacing, so that the text sent and "
+        "the text the engine reports coincide. Texts in another spacing are used where the value is discarded by the machine (task replies in compact and in padded form with ResultPath null), and definitions "
+        "dense in characters that must be escaped again in the request body (quotes, backslashes, new lines, non-ASCII letters) are sent at L-1, L, L+1",
         "for Map/Parallel/ResultSelector places the state's input is kept far below the limit so that only the output crosses it",
         "names: validity = 1..80 characters and none of the forbidden characters listed in the AWS API reference; control characters are not generated",
         "history: machines whose history grows for ever in seven different ways (Pass/Choice/Task/Wait loops, one Task or Parallel retried without end, one Map re-entered per MaxConcurrency block) are run until they end; "
